@@ -41,9 +41,9 @@ func (t *gTRef) baseName() string {
 	}
 	return t.base.baseName()
 }
-func named(n string) *gTRef       { return &gTRef{kind: "named", name: n} }
-func listOf(t *gTRef) *gTRef      { return &gTRef{kind: "list", base: t} }
-func nonNull(t *gTRef) *gTRef     { return &gTRef{kind: "nn", base: t} }
+func named(n string) *gTRef   { return &gTRef{kind: "named", name: n} }
+func listOf(t *gTRef) *gTRef  { return &gTRef{kind: "list", base: t} }
+func nonNull(t *gTRef) *gTRef { return &gTRef{kind: "nn", base: t} }
 
 type gArg struct {
 	name     string
@@ -619,23 +619,24 @@ type gOp struct {
 }
 
 type gDoc struct {
-	ops   []*gOp
-	frags []*gFrag
-	vdefs []string
-	vars  map[string]interface{}
-	vt    []T
-	nvar  int
-	noVars bool
+	ops     []*gOp
+	frags   []*gFrag
+	vdefs   []string
+	vars    map[string]interface{}
+	vt      []T
+	nvar    int
+	noVars  bool
 	fewDirs bool
 }
 
 type docOpts struct {
-	collisions bool // allow repeated response keys
-	abstract   bool // fragments on related / unrelated types (not only the container type)
-	maxDepth   int
-	unknownOp  bool // sometimes pass an operation name the document does not define
-	fewDirs    bool // at most one, literal-conditioned directive per selection
-	allArgs    bool // supply every declared argument (the feature set common to the three strategies)
+	collisions      bool // allow repeated response keys
+	abstract        bool // fragments on related / unrelated types (not only the container type)
+	maxDepth        int
+	anonAmongOthers bool // sometimes leave one of several operations without a name (C01)
+	unknownOp       bool // sometimes pass an operation name the document does not define
+	fewDirs         bool // at most one, literal-conditioned directive per selection
+	allArgs         bool // supply every declared argument (the feature set common to the three strategies)
 }
 
 func (d *gDoc) genDirs(r *Rng) []gDir {
@@ -989,9 +990,14 @@ func genDoc(r *Rng, s *gSchema, o docOpts) *gDoc {
 		nops = 2 + r.Intn(2)
 		d.noVars = true
 	}
+	// (sometimes) one operation without a name next to named ones: not a valid document
+	anon := -1
+	if nops > 1 && o.anonAmongOthers && r.Chance(30) {
+		anon = r.Intn(nops)
+	}
 	for i := 0; i < nops; i++ {
 		op := &gOp{kind: "query"}
-		if nops > 1 || r.Chance(40) {
+		if (nops > 1 || r.Chance(40)) && i != anon {
 			op.name = fmt.Sprintf("Op%d", i)
 		}
 		if i > 0 {
@@ -1069,6 +1075,8 @@ func errClass(msg string) string {
 		return "directive"
 	case strings.Contains(msg, "could not determine operation"):
 		return "no-operation"
+	case strings.Contains(msg, "must be the only operation"):
+		return "invalid-document"
 	}
 	return "other:" + msg
 }
